@@ -106,6 +106,14 @@ func TestWorker(t *testing.T) {
 		line, _ := execScenario(t, &sc, 0, false)
 		line.Scenario = nil
 		emit(line)
+	case "gen":
+		prop := os.Getenv("VERIF_PROP")
+		seed := uint64(envInt("VERIF_SEED_BASE", 1))<<20 + uint64(envInt("VERIF_FROM", 0))
+		sc := Generate(prop, seed)
+		if sc == nil {
+			os.Exit(2)
+		}
+		emit(map[string]interface{}{"scenario": sc})
 	case "search":
 		prop := os.Getenv("VERIF_PROP")
 		base := uint64(envInt("VERIF_SEED_BASE", 1))
